@@ -46,8 +46,8 @@ CAUSE_MSG = "The above exception was the direct cause of the following exception
 CONTEXT_MSG = "During handling of the above exception, another exception occurred:"
 MODEL_BUDGET = 600
 F12_KEY = "F12-deep-chain-recursion"
-F13_KEY = "F13-group-member-reached-by-chain"
-F14_KEY = "F14-wide-group-ruler-and-plural"
+GRP_SHARED_KEY = "C13-group-member-reached-by-chain"
+GRP_WIDE_KEY = "C13-wide-group-ruler-and-plural"
 
 
 def loguru_file():
@@ -693,7 +693,7 @@ WIDE_RULER = re.compile(r"\+-+ (\d\d+|\.\.\.) -+$")
 
 
 def wide_norm(line):
-    """forget what finding F14 is about: ruler width for member numbers >= 10 / '...', and the plural of
+    """forget what finding F19 is about: ruler width for member numbers >= 10 / '...', and the plural of
     'and 1 more exceptions'"""
     line = WIDE_RULER.sub(lambda m: "+- %s -" % m.group(1), line)
     return line.replace("and 1 more exceptions", "and 1 more exception")
@@ -770,9 +770,9 @@ def judge_case(ctx, rep, src, genfile, entry, limit, outs, heap, exc_info, err, 
                 key = None
                 i = next((k for k in range(min(len(a), len(b))) if a[k] != b[k]), min(len(a), len(b)))
                 if [wide_norm(l) for l in a] == [wide_norm(l) for l in b]:
-                    key = F14_KEY
+                    key = GRP_WIDE_KEY
                 elif shared_nodes(heap):
-                    key = F13_KEY
+                    key = GRP_SHARED_KEY
                 ctx.violation("oracle 1 (plain mode = standard traceback): line %d is %r, traceback gives %r"
                               % (i + 1, a[i] if i < len(a) else None, b[i] if i < len(b) else None),
                               dict(mrep, oracle="standard", expected=ref[-1500:], observed=body[-1500:]), key=key)
